@@ -27,7 +27,11 @@ H_SRC := $(wildcard harness/*.c)
 OBJS := $(patsubst %.c,$(B)/obj/%.o,$(SIM_SRC) $(H_SRC))
 CFLAGS := -O1 -g -fblocks -Wall -Wextra -Wno-unused-parameter -I$(REPO) -I$(REPO)/src/BlocksRuntime $(HFLAGS_$(MODE))
 
-all: $(B)/dsim
+# two steps, two make processes: the library first (ninja decides what is out of date in $(REPO)), then a fresh look
+# at the time stamps for the link
+all:
+	@$(MAKE) --no-print-directory lib
+	@$(MAKE) --no-print-directory $(B)/dsim
 
 $(B)/build.ninja:
 	mkdir -p $(B)
@@ -41,13 +45,14 @@ $(B)/build.ninja:
 lib: $(B)/build.ninja
 	@ninja -C $(B) > $(B)/ninja.log 2>&1 || { cat $(B)/ninja.log; exit 1; }
 
-$(B)/obj/%.o: %.c | lib
+$(B)/obj/%.o: %.c
 	@mkdir -p $(dir $@)
 	$(CC) $(CFLAGS) -MMD -MP -c $< -o $@
 
-$(B)/dsim: lib $(OBJS) $(B)/src/libdispatch.a
-	$(CXX) $(LDFLAGS_$(MODE)) -o $@ $(OBJS) $(WRAPFLAGS) $(B)/src/libdispatch.a $(B)/src/BlocksRuntime/libBlocksRuntime.a -lpthread -lrt
+# linked only when an object or the library is newer, and replaced atomically: another check may be executing the old
+# binary at this moment (two checks started side by side used to meet "Permission denied" / "Text file busy")
+$(B)/dsim: $(OBJS) $(B)/src/libdispatch.a
+	$(CXX) $(LDFLAGS_$(MODE)) -o $@.new.$$$$ $(OBJS) $(WRAPFLAGS) $(B)/src/libdispatch.a $(B)/src/BlocksRuntime/libBlocksRuntime.a -lpthread -lrt && mv -f $@.new.$$$$ $@
 
-$(B)/src/libdispatch.a: lib
 
 -include $(OBJS:.o=.d)
